@@ -41,6 +41,10 @@ fn main() {
             Some(p) => driver::replay(p, workers),
             None => 2,
         },
+        "iso-batch" => match (args.get(2), args.get(3)) {
+            (Some(i), Some(o)) => oracle::iso_batch_main(i, o, workers),
+            _ => 2,
+        },
         "selftest" => {
             let n = arg_val(&args, "--seeds").and_then(|s| s.parse().ok()).unwrap_or(2000usize);
             driver::selftest(&opts, n)
